@@ -18,6 +18,10 @@ pub struct C16Case {
     /// RLIMIT_FSIZE in force during the call
     pub limit: u64,
     pub kt: Kt,
+    /// 1: between the refused call and the retry (limit lifted) further updates are made to both
+    /// maps (an overwrite of an old key, a new key, a delete) and the retry uses the next call kind
+    #[serde(default)]
+    pub mid: u8,
 }
 
 #[derive(Serialize, Deserialize, Clone, Debug)]
@@ -35,6 +39,9 @@ pub struct ChildOut {
     pub reads_err_under_limit: u64,
     pub sizes: [u64; 3],
     pub recovered_flush_ok: bool,
+    /// what the child was doing when `failure` arose: baseline | call | ok-under-limit | reads | recovered
+    #[serde(default)]
+    pub stage: String,
 }
 
 fn params_for(shape: u8) -> Params {
@@ -114,11 +121,26 @@ fn workload(kt: Kt, shape: u8) -> (Vec<(Vec<u8>, Option<Vec<u8>>)>, Vec<(Vec<u8>
     (a, b)
 }
 
-fn model_of(kt: Kt, shape: u8) -> (Vec<Vec<u8>>, BTreeMap<Vec<u8>, Vec<u8>>) {
+/// updates made between the refused call and the retry (mid = 1)
+fn mid_updates(kt: Kt, shape: u8) -> Vec<(Vec<u8>, Option<Vec<u8>>)> {
+    vec![
+        (key_bytes(kt, shape, 0), Some(pattern_bytes(1234, 77))),
+        (key_bytes(kt, shape, 1_000_003), Some(pattern_bytes(10, 5))),
+        (key_bytes(kt, shape, 3), None),
+        (key_bytes(kt, shape, 2), Some(pattern_bytes(77, 78))),
+    ]
+}
+
+fn model_of(kt: Kt, shape: u8, mid: u8) -> (Vec<Vec<u8>>, BTreeMap<Vec<u8>, Vec<u8>>) {
     let (a, b) = workload(kt, shape);
     let mut m = BTreeMap::new();
     let mut keys = Vec::new();
-    for (k, v) in a.into_iter().chain(b.into_iter()) {
+    let c = if mid > 0 { mid_updates(kt, shape) } else { Vec::new() };
+    for (k, v) in c.iter() {
+        let _ = v;
+        keys.push(k.clone());
+    }
+    for (k, v) in a.into_iter().chain(b.into_iter()).chain(c.into_iter()) {
         if !keys.contains(&k) && keys.len() < 80 {
             keys.push(k.clone());
         }
@@ -146,10 +168,10 @@ fn small_updates(phase: u8) -> Vec<(Vec<u8>, Vec<u8>)> {
         .collect()
 }
 
-fn small_model() -> (Vec<Vec<u8>>, BTreeMap<Vec<u8>, Vec<u8>>) {
+fn small_model(mid: u8) -> (Vec<Vec<u8>>, BTreeMap<Vec<u8>, Vec<u8>>) {
     let mut m = BTreeMap::new();
     let mut keys = Vec::new();
-    for ph in 0..2u8 {
+    for ph in 0..2u8 + mid.min(1) {
         for (k, v) in small_updates(ph) {
             keys.push(k.clone());
             m.insert(k, v);
@@ -182,7 +204,7 @@ fn set_limit(l: Option<u64>) {
     }
 }
 
-fn snapshot_small(dir: &std::path::Path, tag: &str) -> Result<(), String> {
+fn snapshot_small(dir: &std::path::Path, tag: &str, mid: u8) -> Result<(), String> {
     let snap = dir.join(format!("snap-small-{tag}"));
     let _ = std::fs::remove_dir_all(&snap);
     std::fs::create_dir_all(&snap).map_err(|e| format!("mkdir: {e}"))?;
@@ -191,7 +213,7 @@ fn snapshot_small(dir: &std::path::Path, tag: &str) -> Result<(), String> {
     for i in 0..3 {
         std::fs::write(snap.join(&names[i]), &files[i]).map_err(|e| format!("write snap: {e}"))?;
     }
-    let (keys, model) = small_model();
+    let (keys, model) = small_model(mid);
     let d = crate::decoder::decode(Kt::Vu64, &files[0], &files[1], &files[2]);
     if let Some(c) = d.header.first().or(d.structure.first()) {
         return Err(format!("second map: decoder: {c}"));
@@ -216,7 +238,7 @@ fn snapshot_small(dir: &std::path::Path, tag: &str) -> Result<(), String> {
     Ok(())
 }
 
-fn snapshot_equals_model(dir: &std::path::Path, kt: Kt, shape: u8, tag: &str) -> Result<(), String> {
+fn snapshot_equals_model(dir: &std::path::Path, kt: Kt, shape: u8, tag: &str, mid: u8) -> Result<(), String> {
     let snap = dir.join(format!("snap-{tag}"));
     let _ = std::fs::remove_dir_all(&snap);
     std::fs::create_dir_all(&snap).map_err(|e| format!("mkdir: {e}"))?;
@@ -225,7 +247,7 @@ fn snapshot_equals_model(dir: &std::path::Path, kt: Kt, shape: u8, tag: &str) ->
     for i in 0..3 {
         std::fs::write(snap.join(&names[i]), &files[i]).map_err(|e| format!("write snap: {e}"))?;
     }
-    let (keys, model) = model_of(kt, shape);
+    let (keys, model) = model_of(kt, shape, mid);
     let d = crate::decoder::decode(kt, &files[0], &files[1], &files[2]);
     if let Some(c) = d.header.first().or(d.structure.first()) {
         return Err(format!("decoder: {c}"));
@@ -266,6 +288,7 @@ pub fn child_main(req_file: &str) -> i32 {
     let mut out = ChildOut::default();
     let dir = std::path::PathBuf::from(&req.dir);
     let c = req.case.clone();
+    let stage = std::cell::Cell::new("baseline");
     let res = std::panic::catch_unwind(std::panic::AssertUnwindSafe(|| -> Result<(), String> {
         let _ = std::fs::create_dir_all(&dir);
         let db = abyssiniandb::open_file(&dir).map_err(|e| format!("open_file: {e}"))?;
@@ -294,10 +317,11 @@ pub fn child_main(req_file: &str) -> i32 {
         for (k, v) in small_updates(1) {
             small.put(&k, &v).map_err(|e| format!("put (second map): {e}"))?;
         }
-        let (keys, model) = model_of(c.kt, c.shape);
+        let (keys, model) = model_of(c.kt, c.shape, 0);
         if !req.dry {
             set_limit(Some(c.limit));
         }
+        stage.set("call");
         let r = match c.call {
             0 => m.flush(),
             1 => m.sync_data(),
@@ -306,6 +330,7 @@ pub fn child_main(req_file: &str) -> i32 {
             _ => db.sync_all(),
         };
         out.call_ok = r.is_ok();
+        stage.set("reads");
         // (i) reads under the limit: Err is acceptable, a wrong value is not
         for k in &keys {
             match m.get(k) {
@@ -325,17 +350,19 @@ pub fn child_main(req_file: &str) -> i32 {
         if out.call_ok {
             // nothing may have been swallowed: what is on disk now is the model state
             set_limit(None);
-            snapshot_equals_model(&dir, c.kt, c.shape, "ok").map_err(|e| {
+            stage.set("ok-under-limit");
+            snapshot_equals_model(&dir, c.kt, c.shape, "ok", 0).map_err(|e| {
                 format!("the call returned Ok under RLIMIT_FSIZE={} but the files on disk do not hold the current state: {e}", c.limit)
             })?;
             if db_level {
-                snapshot_small(&dir, "ok").map_err(|e| {
+                snapshot_small(&dir, "ok", 0).map_err(|e| {
                     format!("the database-level call returned Ok under RLIMIT_FSIZE={} but the files on disk do not hold the current state: {e}", c.limit)
                 })?;
             }
         }
         // (ii) limit lifted: every read equals the model
         set_limit(None);
+        stage.set("reads");
         for k in &keys {
             let v = m.get(k).map_err(|e| format!("after lifting the limit get returned Err: {e}"))?;
             if v.as_ref() != model.get(k) {
@@ -360,14 +387,30 @@ pub fn child_main(req_file: &str) -> i32 {
             return Err("after the failed flush a full iteration differs from the model".into());
         }
         // (iii) the next flush succeeds and makes everything durable
-        let (skeys, smodel) = small_model();
+        let (skeys, smodel) = small_model(0);
         for k in &skeys {
             let v = small.get(k).map_err(|e| format!("after lifting the limit get (second map) returned Err: {e}"))?;
             if v.as_ref() != smodel.get(k) {
                 return Err("after the failed sync (limit lifted) the second map's contents differ from the model".into());
             }
         }
-        let r2 = match c.call {
+        stage.set("recovered");
+        let mut retry = c.call;
+        if c.mid > 0 {
+            // more updates before the retry; the retry is another call kind of the same level
+            apply(&mut m, &mid_updates(c.kt, c.shape))?;
+            for (k, v) in small_updates(2) {
+                small.put(&k, &v).map_err(|e| format!("put (second map): {e}"))?;
+            }
+            retry = match c.call {
+                0 => 1,
+                1 => 2,
+                2 => 0,
+                3 => 4,
+                _ => 3,
+            };
+        }
+        let r2 = match retry {
             0 => m.flush(),
             1 => m.sync_data(),
             2 => m.sync_all(),
@@ -378,11 +421,15 @@ pub fn child_main(req_file: &str) -> i32 {
         if let Err(e) = r2 {
             return Err(format!("with the limit lifted the next flush/sync still returns Err: {e}"));
         }
-        snapshot_equals_model(&dir, c.kt, c.shape, "rec").map_err(|e| {
-            format!("after the recovered flush the files on disk do not hold the current state: {e}")
+        snapshot_equals_model(&dir, c.kt, c.shape, "rec", c.mid).map_err(|e| {
+            format!(
+                "after the recovered {} (returned Ok with the limit lifted{}) the files on disk do not hold the current state: {e}",
+                ["flush", "sync_data", "sync_all", "db.sync_data", "db.sync_all"][retry as usize % 5],
+                if c.mid > 0 { ", further updates made after the refused call" } else { "" }
+            )
         })?;
         if db_level {
-            snapshot_small(&dir, "rec").map_err(|e| {
+            snapshot_small(&dir, "rec", c.mid).map_err(|e| {
                 format!("after the recovered database-level sync the files on disk do not hold the current state: {e}")
             })?;
         }
@@ -398,6 +445,7 @@ pub fn child_main(req_file: &str) -> i32 {
         Ok(Err(e)) => out.failure = Some(e),
         Err(p) => out.failure = Some(format!("panicked: {}", crate::runner::panic_text(&p))),
     }
+    out.stage = stage.get().to_string();
     println!("{}", serde_json::to_string(&out).unwrap());
     use std::io::Write;
     let _ = std::io::stdout().flush();
@@ -433,7 +481,7 @@ pub fn thresholds(sizes: [u64; 3]) -> Vec<u64> {
     v
 }
 
-fn run_child(c: &C16Case, dry: bool, w: &WCtx) -> Result<(ChildOut, std::path::PathBuf), Failure> {
+pub(crate) fn run_child(c: &C16Case, dry: bool, w: &WCtx) -> Result<(ChildOut, std::path::PathBuf), Failure> {
     let dir = w.fresh_dir();
     let req = ChildReq {
         dir: dir.join("db").to_string_lossy().to_string(),
@@ -472,6 +520,7 @@ fn sizes_of(shape: u8, kt: Kt, w: &WCtx) -> Result<[u64; 3], Failure> {
         call: 0,
         limit: 0,
         kt,
+        mid: 0,
     };
     let (o, dir) = run_child(&c, true, w)?;
     w.cleanup(&dir);
@@ -482,16 +531,22 @@ fn sizes_of(shape: u8, kt: Kt, w: &WCtx) -> Result<[u64; 3], Failure> {
     Ok(o.sizes)
 }
 
-fn run_c16(c: &C16Case, w: &WCtx) -> Result<Report, Failure> {
+pub(crate) fn run_c16(c: &C16Case, w: &WCtx) -> Result<Report, Failure> {
+    run_c16_stage(c, w).map_err(|(f, _)| f)
+}
+
+/// the failure comes with the stage it arose in (C03 only claims ok-under-limit / recovered / left-behind)
+pub(crate) fn run_c16_stage(c: &C16Case, w: &WCtx) -> Result<Report, (Failure, String)> {
     crate::exec::tick();
     let mut rep = Report::default();
-    let (o, dir) = run_child(c, false, w)?;
+    let (o, dir) = run_child(c, false, w).map_err(|f| (f, "infra".to_string()))?;
+    let lb = |f: Failure| ("left-behind".to_string(), f);
     let fin = (|| {
         if let Some(f) = &o.failure {
-            return Err(Failure::new("fault", None, format!("[shape {} call {} RLIMIT_FSIZE={}] {f}", c.shape, ["flush", "sync_data", "sync_all", "db.sync_data", "db.sync_all"][c.call as usize % 5], c.limit)));
+            return Err((o.stage.clone(), Failure::new("fault", None, format!("[shape {} call {} RLIMIT_FSIZE={}] {f}", c.shape, ["flush", "sync_data", "sync_all", "db.sync_data", "db.sync_all"][c.call as usize % 5], c.limit))));
         }
         // the directory left behind by the process that exited without running destructors
-        let (keys, model) = model_of(c.kt, c.shape);
+        let (keys, model) = model_of(c.kt, c.shape, c.mid);
         let req = VerifyReq {
             dir: dir.join("db").to_string_lossy().to_string(),
             maps: vec![DirMap {
@@ -507,26 +562,26 @@ fn run_c16(c: &C16Case, w: &WCtx) -> Result<Report, Failure> {
         match got {
             Ok(Ok(g)) => {
                 if g.maps[0] != digest_model(&keys, &model) {
-                    return Err(Failure::new(
+                    return Err(lb(Failure::new(
                         "fault",
                         None,
                         format!("[shape {} RLIMIT_FSIZE={}] the directory left behind after the recovered flush shows other contents than the model", c.shape, c.limit),
-                    ));
+                    )));
                 }
             }
-            Ok(Err(e)) => return Err(Failure::new("fault", None, format!("directory left behind cannot be opened: {e}"))),
+            Ok(Err(e)) => return Err(lb(Failure::new("fault", None, format!("directory left behind cannot be opened: {e}")))),
             Err(p) => {
-                return Err(Failure::new(
+                return Err(lb(Failure::new(
                     "fault",
                     None,
                     format!("directory left behind cannot be opened: panic: {}", crate::runner::panic_text(&p)),
-                ))
+                )))
             }
         }
         Ok(())
     })();
     w.cleanup(&dir);
-    fin?;
+    fin.map_err(|(st, f)| (f, st))?;
     if o.call_ok {
         rep.bump("call_ok_under_limit");
     } else {
@@ -551,7 +606,7 @@ fn n_thresholds(tier: Tier) -> u64 {
     tier.pick(60, 250)
 }
 
-fn case_of(tier: Tier, index: u64, w: &WCtx) -> Result<C16Case, Failure> {
+pub(crate) fn case_of(tier: Tier, index: u64, w: &WCtx) -> Result<C16Case, Failure> {
     let nt = n_thresholds(tier);
     let per_shape = nt * 5;
     let shape = ((index / per_shape) % 4) as u8;
@@ -572,6 +627,7 @@ fn case_of(tier: Tier, index: u64, w: &WCtx) -> Result<C16Case, Failure> {
         call,
         limit: t,
         kt,
+        mid: ((j / 5) % 2) as u8,
     })
 }
 
@@ -583,7 +639,7 @@ impl Prop for C16 {
         "fault_enumeration"
     }
     fn rule(&self) -> String {
-        "fault enumeration in a child process (SIGXFSZ ignored): four workload shapes: three so that each file is in turn the largest (values of 150-400 KB; 600 keys of ~1 KB; 65536-bucket table with few entries) and one with exactly 65536 small updates between the baseline flush and the call, a flushed baseline followed by buffered updates made with the limit lifted; then RLIMIT_FSIZE = T and flush / sync_data / sync_all on the map, or sync_data / sync_all on the database object with a second small map (visited after the big one) open and updated; T ranges over the header offsets, every 128 KiB buffer-chunk boundary (-1, 0, +1, +1000) up to beyond the largest file, each file's end (-1, 0, +1) and half of it (quick: 60 thresholds per shape and call spread over that list, thorough: 250). Oracle: Ok under the limit => the files on disk hold the model state (independent decode + copy opened with the crate); Err => (i) reads while the limit is in force may return Err but never a wrong value, (ii) after lifting the limit get of every key, len and a full iteration equal the model, (iii) the next flush/sync returns Ok and the files on disk hold the model state, also in the directory left behind when the process exits without running destructors (as by SIGKILL). evaluations = (shape, call, T, key type) cases. Non-trivial: T at which the call returned Err; distinct by (shape, call, T, key type)."
+        "fault enumeration in a child process (SIGXFSZ ignored): four workload shapes: three so that each file is in turn the largest (values of 150-400 KB; 600 keys of ~1 KB; 65536-bucket table with few entries) and one with exactly 65536 small updates between the baseline flush and the call, a flushed baseline followed by buffered updates made with the limit lifted; then RLIMIT_FSIZE = T and flush / sync_data / sync_all on the map, or sync_data / sync_all on the database object with a second small map (visited after the big one) open and updated; T ranges over the header offsets, every 128 KiB buffer-chunk boundary (-1, 0, +1, +1000) up to beyond the largest file, each file's end (-1, 0, +1) and half of it (quick: 60 thresholds per shape and call spread over that list, thorough: 250). Oracle: Ok under the limit => the files on disk hold the model state (independent decode + copy opened with the crate); Err => (i) reads while the limit is in force may return Err but never a wrong value, (ii) after lifting the limit get of every key, len and a full iteration equal the model, (iii) the next flush/sync returns Ok and the files on disk hold the model state -- in every second case further updates (overwrite of an old key, new key, delete, in both maps) are made between the refused call and the retry, and the retry is another call kind --, also in the directory left behind when the process exits without running destructors (as by SIGKILL). evaluations = (shape, call, T, key type) cases. Non-trivial: T at which the call returned Err; distinct by (shape, call, T, key type)."
             .to_string()
     }
     fn assumptions(&self) -> Vec<String> {
